@@ -8,6 +8,7 @@ import (
 	"fmt"
 	"gitlab.com/yawning/obfs4.git/transports/obfs4"
 	"io"
+	"os"
 	"math/big"
 	"strings"
 	"time"
@@ -34,6 +35,11 @@ type probe struct {
 	// the genuine one arrives, and accepts one more fresh handshake before the
 	// replay: the filter is full and evicts its oldest entry, not this one
 	busy bool
+	// forged: (replay probes) the genuine handshake is the OLDEST entry of a
+	// filter one short of full (102398 newer ones), and before the replay arrives the bridge
+	// drops one more probe with a valid mark but a random MAC -- which must not
+	// cost the genuine handshake its place
+	forged bool
 	// validLen: for "extended" probes, the length of the embedded valid handshake
 	validLen int
 }
@@ -157,6 +163,7 @@ func probes(thorough bool) []probe {
 	// handshake built around it with the right MAC is simply valid)
 	ps = append(ps, probe{name: "replay", replay: true})
 	ps = append(ps, probe{name: "replay/busy-bridge", replay: true, busy: true})
+	ps = append(ps, probe{name: "replay/nearly-full-bridge-after-a-forged-probe", replay: true, forged: true})
 	return ps
 }
 
@@ -205,15 +212,17 @@ func deliveries(thorough bool) []delivery {
 }
 
 type trace struct {
-	leftAt   time.Duration // when the prober disconnected (-1: it stayed)
-	wrote    int64
-	closeAt  time.Duration
-	closed   bool
-	consumed int64
-	sent     int64
-	wrapErr  bool
-	panics   string
-	readEnds []int64 // stream offsets at which the server's reads ended
+	leftAt    time.Duration // when the prober disconnected (-1: it stayed)
+	wrote     int64
+	closeAt   time.Duration
+	closed    bool
+	consumed  int64
+	sent      int64
+	wrapErr   bool
+	panics    string
+	readEnds  []int64 // stream offsets at which the server's reads ended
+	readSizes []int   // and their sizes
+	readCaps  []int   // and the sizes asked for
 }
 
 func (t trace) String() string {
@@ -225,7 +234,7 @@ func (t trace) String() string {
 // busyUnavailable: the last runProbe could not set up the busy-bridge probe.
 var busyUnavailable bool
 
-func runProbe(c *mc.Ctx, br *o4h.Bridge, sf base.ServerFactory, blob []byte, d delivery, pre []byte, pre2 []byte) trace {
+func runProbe(c *mc.Ctx, br *o4h.Bridge, sf base.ServerFactory, blob []byte, d delivery, pre []byte, pre2 []byte, forged []byte) trace {
 	var tr trace
 	tr.leftAt = -1
 	start := time.Unix(1_700_000_000, 0).Add(13 * time.Minute)
@@ -267,6 +276,31 @@ func runProbe(c *mc.Ctx, br *o4h.Bridge, sf base.ServerFactory, blob []byte, d d
 				return
 			}
 			conn.Close()
+		}
+		if forged != nil {
+			f := obfs4.VerifReplayFilter(sf)
+			if f == nil {
+				busyUnavailable = true
+				return
+			}
+			// one short of full (the genuine handshake + 102398 newer ones): a full
+			// filter forgets its oldest entry with the next query, by design
+			var v [16]byte
+			for i := 0; i < 102400-2; i++ {
+				binary.BigEndian.PutUint64(v[:], uint64(i)+1)
+				f.TestAndSet(s.Now(), v[:])
+			}
+			cw3, sw3 := wire.Pipe("forger", "server-forged")
+			s.Spawn("forger", func() {
+				cw3.Write(forged)
+				cw3.Close()
+			})
+			conn3, err3 := sf.WrapConn(sw3)
+			if err3 == nil {
+				conn3.Close()
+				fail(c, "silent", "accepted/forged-mac", "a handshake with a random MAC was accepted")
+				return
+			}
 		}
 		if pre != nil {
 			// the replay arrives a second later; "accept" is now
@@ -314,6 +348,8 @@ func runProbe(c *mc.Ctx, br *o4h.Bridge, sf base.ServerFactory, blob []byte, d d
 	for _, n := range sw.ReadSizes {
 		off += int64(n)
 		tr.readEnds = append(tr.readEnds, off)
+		tr.readSizes = append(tr.readSizes, n)
+		tr.readCaps = append(tr.readCaps, sw.ReadCaps[len(tr.readSizes)-1])
 	}
 	_ = sentBeforeClose
 	return tr
@@ -380,7 +416,7 @@ func main() {
 										sharedSf = sf
 									}
 								}
-								var blob, pre, pre2 []byte
+								var blob, pre, pre2, forged []byte
 								var tr trace
 								// the probe bytes are built inside a scheduler run (they need the model hour)
 								sched.Run(c, sched.Options{NoPreempt: true, Start: time.Unix(1_700_000_000, 0).Add(13 * time.Minute)}, func() {
@@ -389,6 +425,10 @@ func main() {
 										pre = blob
 										if p.busy {
 											pre2 = validHello(br, pr, 90, 0)
+										}
+										if p.forged {
+											forged = validHello(br, pr, 95, 0)
+											copy(forged[len(forged)-16:], pr.Bytes(16))
 										}
 									} else {
 										blob = p.build(br, pr)
@@ -412,7 +452,7 @@ func main() {
 									}
 								}
 								busyUnavailable = false
-								tr = runProbe(c, br, sf, blob, d, pre, pre2)
+								tr = runProbe(c, br, sf, blob, d, pre, pre2, forged)
 								if busyUnavailable {
 									c.Count("busy_bridge_probes_not_set_up", 1)
 									continue
@@ -423,7 +463,10 @@ func main() {
 									fail(c, "no-panic", "panic", "probe %s: %s", p.name, tr.panics)
 									continue
 								}
-								c.Observe(p.name, tr.String())
+								if os.Getenv("VERIF_C03_DEBUG") != "" && p.forged {
+								fmt.Fprintf(os.Stderr, "DEBUG %s %s: %s\n", p.name, d.name, tr.String())
+							}
+							c.Observe(p.name, tr.String())
 								c.Case(p.name, tr.String())
 								if strings.HasPrefix(p.name, "extended") {
 									// one of the server's reads ended exactly at the end of the
@@ -433,8 +476,12 @@ func main() {
 									if vl == 0 {
 										vl = 32 + 85 + 32
 									}
-									for _, e := range tr.readEnds {
-										if e == vl {
+									// (only a read that FILLED the buffer the server reads its
+									// handshakes with: a read that stops there because the
+									// server asked for less than that is the server's own
+									// doing, not a presentation of the valid handshake alone)
+									for k, e := range tr.readEnds {
+										if e == vl && tr.readSizes[k] == tr.readCaps[k] && tr.readCaps[k] == tr.readCaps[0] {
 											legit = true
 										}
 									}
